@@ -89,6 +89,30 @@ func (g *staticGen) choose(label string, n int) int {
 	return g.c.Choose(label, n)
 }
 
+// ref is a choice point for the target of a reference: the default is base, the other
+// targets follow in ascending order.
+func (g *staticGen) ref(label string, base, n int) int {
+	if n <= 1 {
+		return base % max1(n)
+	}
+	base = base % n
+	k := g.choose(label, n)
+	if k == 0 {
+		return base
+	}
+	if k <= base {
+		return k - 1
+	}
+	return k
+}
+
+func max1(n int) int {
+	if n < 1 {
+		return 1
+	}
+	return n
+}
+
 func (g *staticGen) id(prefix string, i int) string {
 	st, ok := g.style[prefix]
 	if !ok {
@@ -241,7 +265,7 @@ func genStaticFeedN(c *Ctx, vary bool, n staticCounts, stTrips []int, shapeOfRow
 		case "route_id":
 			return g.id("R", r), true
 		case "agency_id":
-			return g.id("A", r%n.agencies), true
+			return g.id("A", g.ref(fmt.Sprintf("routes[%d].agency_id", r), r, n.agencies)), true
 		}
 		return "", false
 	})
@@ -347,12 +371,18 @@ func genStaticFeedN(c *Ctx, vary bool, n staticCounts, stTrips []int, shapeOfRow
 		case "trip_id":
 			return g.id("T", r), true
 		case "route_id":
-			return g.id("R", r%n.routes), true
+			return g.id("R", g.ref(fmt.Sprintf("trips[%d].route_id", r), r, n.routes)), true
 		case "service_id":
+			// targets: the calendar services, then the exception-only ones
+			base := (r / 2) % n.calendars
 			if r%2 == 1 && nExOnly > 0 {
-				return g.id("X", 0), true
+				base = n.calendars
 			}
-			return g.id("C", (r/2)%n.calendars), true
+			k := g.ref(fmt.Sprintf("trips[%d].service_id", r), base, n.calendars+nExOnly)
+			if k >= n.calendars {
+				return g.id("X", k-n.calendars), true
+			}
+			return g.id("C", k), true
 		case "shape_id":
 			if nShapeIDs == 0 {
 				return "", true
@@ -367,7 +397,7 @@ func genStaticFeedN(c *Ctx, vary bool, n staticCounts, stTrips []int, shapeOfRow
 	})
 	mk("frequencies.txt", n.frequencies, func(r int, sp colSpec) (string, bool) {
 		if sp.Name == "trip_id" {
-			return g.id("T", (r/2)%n.trips), true
+			return g.id("T", g.ref(fmt.Sprintf("frequencies[%d].trip_id", r), r/2, n.trips)), true
 		}
 		return "", false
 	})
@@ -390,9 +420,11 @@ func genStaticFeedN(c *Ctx, vary bool, n staticCounts, stTrips []int, shapeOfRow
 		}
 		switch sp.Name {
 		case "trip_id":
-			return g.id("T", (r/2)%n.trips), true
+			// any row may belong to any trip (rows of a trip need not be contiguous); the
+			// sequence numbers are distinct over the whole file
+			return g.id("T", g.ref(fmt.Sprintf("stop_times[%d].trip_id", r), r/2, n.trips)), true
 		case "stop_id":
-			return g.id("S", r%n.stops), true
+			return g.id("S", g.ref(fmt.Sprintf("stop_times[%d].stop_id", r), r, n.stops)), true
 		case "stop_sequence":
 			base := []int{2, 10, 100, 0}[r%4] + (r/4)*1000
 			k := g.choose(fmt.Sprintf("stop_times[%d].stop_sequence", r), 2)
